@@ -335,7 +335,7 @@ def run_check(mod, tier, seed, replay=None):
         proof["broken"].append("Driver (models) failed to build")
 
     # 3. correspond
-    stats = {"evaluations": 0, "nontrivial": set(), "kinds": {}, "model_compared": 0, "spec_compared": 0,
+    stats = {"evaluations": 0, "nontrivial": set(), "kinds": {}, "tags": {}, "model_compared": 0, "spec_compared": 0,
              "oracle_compared": 0, "skipped": 0, "impl_errors": {}}
     failures = []       # property failures (impl vs spec/oracle)
     corr_breaks = []    # impl vs model
@@ -365,6 +365,12 @@ def run_check(mod, tier, seed, replay=None):
             k = c.get("op", "?")
             stats["kinds"][k] = stats["kinds"].get(k, 0) + 1
             got, exp = results[i]
+            if hasattr(mod, "tags"):          # input distribution: free-form tags per case (format, size class, branch, error kind hit …)
+                try:
+                    for t in mod.tags(c, got):
+                        stats["tags"][t] = stats["tags"].get(t, 0) + 1
+                except Exception:
+                    pass
             if isinstance(got, str) and got.startswith("E:harness:"):
                 n = got.split(":")[2]
                 stats["impl_errors"][n] = stats["impl_errors"].get(n, 0) + 1
@@ -507,7 +513,7 @@ def run_check(mod, tier, seed, replay=None):
             "evaluations": stats["evaluations"], "distinct_nontrivial": len(stats["nontrivial"]),
             "rule": getattr(mod, "RULE", ""), "samples": _abridge(samples[:6]) or [{"note": "no cases"}],
             "exhaustive": bool(getattr(mod, "EXHAUSTIVE", {}).get(tier, False)),
-            "case_kinds": stats["kinds"], "compared_with_lean_model": stats["model_compared"],
+            "case_kinds": stats["kinds"], "input_distribution": dict(sorted(stats["tags"].items())), "compared_with_lean_model": stats["model_compared"],
             "compared_with_lean_spec": stats["spec_compared"], "compared_with_python_oracle": stats["oracle_compared"],
             "outside_domain_skipped": stats["skipped"], "correspondence_breaks": len(corr_breaks),
             "property_failures": len(failures), "known_findings_reproduced": sorted(seen_known),
